@@ -17,14 +17,14 @@ from pv.ref import metafront
 
 NEVER = '"\\u{E000}"'
 KINDS = ["parens", "reassoc", "extract", "dup_choice", "never_after", "never_neg"]
-GRAMMARS = ["json_tests", "json_example", "toml", "sql", "http", "jsonpath", "calculator", "calculator_prec", "lists", "ini", "csv"]
+GRAMMARS = ["json_tests", "json_example", "toml", "sql", "http", "jsonpath", "calculator", "calculator_prec", "lists", "ini", "csv", "surround"]
 
 
 class HarnessError(Exception):
     pass
 
 
-def apply_rewrite(text: str, sites: list[dict], rnd: random.Random, kind: str, counter: list[int]):
+def apply_rewrite(text: str, sites: list[dict], rnd: random.Random, kind: str, counter: list[int], focus=None, exact=None):
     """-> (new_text, description) or None when no site of this kind exists."""
     if kind == "reassoc":
         chains = [s for s in sites if s["kind"] in ("seq_chain", "alt_chain")]
@@ -41,14 +41,27 @@ def apply_rewrite(text: str, sites: list[dict], rnd: random.Random, kind: str, c
         a, b = c["terms"][i][0], c["terms"][j][1]
         return text[:a] + "(" + text[a:b] + ")" + text[b:], {"kind": kind, "chain": c["kind"], "rule": c["rule"], "wrapped": text[a:b][:60]}
     terms = [s for s in sites if s["kind"] == "term" and not s["tagged"] and s["rule"] != ""]
+    if focus is not None:
+        # nest: prefer a site inside the region that the previous rewrite produced
+        inside = [s for s in terms if focus[0] <= s["tight_span"][0] and s["tight_span"][1] <= focus[1]]
+        if inside:
+            terms = inside
     if not terms:
         return None
-    t = rnd.choice(terms)
+    # sites that touch the user stack are where a lost or doubled undo becomes visible: weight them up
+    weights = [6 if any(k in text[s["tight_span"][0] : s["tight_span"][1]] for k in ("PUSH", "POP", "DROP", "PEEK")) else 1 for s in terms]
+    t = rnd.choices(terms, weights)[0]
+    if exact is not None:
+        cands = [s for s in terms if text[s["tight_span"][0] : s["tight_span"][1]] == exact[0]]
+        if len(cands) <= exact[1]:
+            return None
+        t = cands[exact[1]]
     a, b = t["tight_span"]
     body = text[a:b]
     desc = {"kind": kind, "rule": t["rule"], "modifier": t["modifier"], "term": body[:60], "ctx": t["ctx"]}
+    desc["at"] = [a, b]
     if kind == "parens":
-        new = "(" * rnd.choice([1, 1, 2]) 
+        new = "(" * rnd.choice([1, 1, 2])
         new = new + body + ")" * len(new)
     elif kind == "extract":
         counter[0] += 1
@@ -63,6 +76,7 @@ def apply_rewrite(text: str, sites: list[dict], rnd: random.Random, kind: str, c
         new = f"((!({body}) ~ {NEVER}) | {body})"
     else:
         raise ValueError(kind)
+    desc["new_span"] = [a, a + len(new)]
     return text[:a] + new + text[b:], desc
 
 
@@ -108,27 +122,70 @@ def worker(shard: dict) -> dict:  # noqa: PLR0912, PLR0915
     cases = cases[: shard["max_cases"]]
     monitor.set_budget(50_000_000)
     base_res = {}
+    base_steps = {}
     for rule, inp in cases:
         for m, o in objs0.items():
             base_res[(rule, inp, m)] = outcome(run(o, rule, inp))
+            base_steps[(rule, inp, m)] = monitor.last_steps()
     acc.count("inputs", len(cases))
     acc.count("inputs_valid", sum(1 for (r, i) in cases if base_res[(r, i, "I")][0] == "ok"))
     vk: dict = {}
     counter = [0]
-    for v in range(shard["variants"]):
+    # systematic stratum: at every term that touches the user stack, every ordered PAIR of rewrite kinds nested at that term
+    planned: list = [None] * shard["variants"]
+    if shard.get("nested_pairs"):
+        stack_terms: dict[str, int] = {}
+        for st in base[2]:
+            if st["kind"] == "term" and not st["tagged"]:
+                body = text[st["tight_span"][0] : st["tight_span"][1]]
+                if any(k in body for k in ("PUSH", "POP", "DROP", "PEEK")) and len(body) < 80:
+                    stack_terms[body] = stack_terms.get(body, 0) + 1
+        pairs = [(body, occ, k1, k2) for body, n in sorted(stack_terms.items()) for occ in range(n) for k1 in KINDS for k2 in KINDS if "reassoc" not in (k1, k2)]
+        rnd.shuffle(pairs)
+        planned = pairs[shard["pair_offset"] :: shard["pair_stride"]][: shard["max_pairs"]]
+        acc.count("nested_pair_variants_planned", len(planned))
+    for v, plan in enumerate(planned):
         cur = text
         descs = []
-        nrew = 1 if rnd.random() < 0.7 else rnd.randint(2, 4)
+        if plan is not None:
+            body, occ, k1, k2 = plan
+            p1 = oracle.parse(cur)
+            r1 = apply_rewrite(cur, p1[2], rnd, k1, counter, None, (body, occ))
+            if r1 is None:
+                continue
+            cur, d1 = r1
+            descs.append(d1)
+            p2 = oracle.parse(cur)
+            if p2 is None:
+                acc.inconclusive.append(f"harness produced a text the oracle rejects ({key}): {descs}")
+                continue
+            r2 = apply_rewrite(cur, p2[2], rnd, k2, counter, d1.get("new_span"), (body, 0))
+            if r2 is not None:
+                cur, d2 = r2
+                d2["nested_in_previous"] = True
+                acc.count("rewrites_nested_in_previous_site")
+                descs.append(d2)
+            nrew = 0
+        else:
+            nrew = 1 if rnd.random() < 0.6 else rnd.randint(2, 4)
         for _ in range(nrew):
             parsed = oracle.parse(cur)
             if parsed is None:
                 acc.inconclusive.append(f"harness produced a text the oracle rejects ({key}): {descs}")
                 break
             kind = shard["kinds"][(v + len(descs)) % len(shard["kinds"])] if rnd.random() < 0.7 else rnd.choice(shard["kinds"])
-            r = apply_rewrite(cur, parsed[2], rnd, kind, counter)
+            focus = None
+            if descs and "new_span" in descs[-1] and rnd.random() < 0.6:
+                focus = descs[-1]["new_span"]
+                if kind == "reassoc":
+                    kind = rnd.choice([k for k in shard["kinds"] if k != "reassoc"])
+            r = apply_rewrite(cur, parsed[2], rnd, kind, counter, focus)
             if r is None:
                 continue
             cur, d = r
+            if focus is not None:
+                d["nested_in_previous"] = True
+                acc.count("rewrites_nested_in_previous_site")
             descs.append(d)
         if not descs:
             continue
@@ -163,9 +220,21 @@ def worker(shard: dict) -> dict:  # noqa: PLR0912, PLR0915
         acc.count("rewritten_grammars_loaded")
         fresh = {d.get("fresh_rule") for d in descs if d.get("fresh_rule")}
         reached = False
+        blowups = 0
         for rule, inp in cases:
             for m, o in objs.items():
+                # (e | e)-style rewrites legitimately multiply the work, exponentially when nested in recursive rules:
+                # a parse that needs more than 12x the original's logical steps is abandoned and not judged (after one such parse the variant is dropped)
+                if blowups >= 1:
+                    acc.count("abstain.skipped_after_blowup")
+                    continue
+                monitor.set_budget(12 * base_steps[(rule, inp, m)] + 50_000)
                 got = outcome(run(o, rule, inp))
+                monitor.set_budget(50_000_000)
+                if got[0] == "exc" and got[1] == "BudgetExceeded":
+                    acc.count("abstain.rewritten_grammar_needs_over_12x_steps")
+                    blowups += 1
+                    continue
                 acc.count("comparisons")
                 want = base_res[(rule, inp, m)]
                 if got != want:
@@ -183,7 +252,7 @@ def worker(shard: dict) -> dict:  # noqa: PLR0912, PLR0915
                     acc.count("comparisons_of_successful_parses")
             acc.nontrivial(key, v, rule, inp)
         # was the rewritten site actually exercised?  (fresh silent rule entered in mode I / NEVER literal tried)
-        if "I" in objs and (fresh or any(d["kind"].startswith("never") for d in descs)):
+        if "I" in objs and not blowups and (fresh or any(d["kind"].startswith("never") for d in descs)):
             hits = {"n": 0}
             orig_push = monitor.CountingStack.push
             orig_fail = monitor.MonitoredState.fail
@@ -202,7 +271,9 @@ def worker(shard: dict) -> dict:  # noqa: PLR0912, PLR0915
             monitor.MonitoredState.fail = fail
             try:
                 for rule, inp in cases[:12]:
+                    monitor.set_budget(12 * base_steps[(rule, inp, "I")] + 50_000)
                     run(objs["I"], rule, inp)
+                monitor.set_budget(50_000_000)
             finally:
                 monitor.CountingStack.push = orig_push
                 monitor.MonitoredState.fail = orig_fail
@@ -238,6 +309,17 @@ def main(tier: str, seed: int) -> int:
                     "mutants": run_.pick(2, 5), "max_cases": run_.pick(40, 120),
                 }
             )
+    for key in ("lists", "surround"):
+        g = corpus["grammars"].get(key)
+        if g and g["cases"]:
+            stride = run_.pick(4, 8)
+            for j in range(stride):
+                shards.append(
+                    {
+                        "key": key, "text": g["text"], "cases": g["cases"], "seed": seed_int("C08", seed, key, "np", j), "variants": 0, "kinds": KINDS, "mutants": run_.pick(2, 5),
+                        "max_cases": run_.pick(30, 80), "nested_pairs": True, "pair_offset": j, "pair_stride": stride, "max_pairs": run_.pick(40, 10**6),
+                    }
+                )
     run_workers("pv.checks.c08", "worker", shards, timeout_s=run_.pick(900, 7200), acc=run_.acc)
     return run_.finish(
         rule=(
